@@ -343,6 +343,7 @@ FIXTURES = {
     "xy_chart": (6, _chart(CT.XY_SCATTER)),
     "pie_chart": (6, _chart(CT.PIE)),
     "prs": (6, lambda prs, s, rnd: None),
+    "prs_without_sldSz": (6, lambda prs, s, rnd: prs._element.remove(prs._element.sldSz) if prs._element.sldSz is not None else None),  # p:sldSz is optional
 }
 
 
@@ -485,6 +486,8 @@ ROWS = [
     R("_Row.height", "table", SP + ".table.rows[0]", emu(0, HALF // 4), "emu", group="row", corpus="row", cls="emu-geometry"),
     R("Presentation.slide_width", "prs", "prs", ints(914400, 51206400, False, (9144000, 12192000)), "emu", group="prs", solo=True, corpus="prs", cls="emu-geometry"),
     R("Presentation.slide_height", "prs", "prs", ints(914400, 51206400, False, (6858000, 5143500)), "emu", group="prs", solo=True, corpus="prs", cls="emu-geometry"),
+    R("Presentation.slide_width@no-sldSz", "prs_without_sldSz", "prs", ints(914400, 51206400, False, (9144000, 12192000)), "emu", group="prsnosz", solo=True, cls="emu-geometry", initial_may_raise=True),
+    R("Presentation.slide_height@no-sldSz", "prs_without_sldSz", "prs", ints(914400, 51206400, False, (6858000, 5143500)), "emu", group="prsnosz", solo=True, cls="emu-geometry", initial_may_raise=True),
     R("LineFormat.width", "autoshape", SP + ".line", emu(0, 20116800, interior=(0, 1, 12700, 9525, 25400), none=True), "emu", none=0, group="line", corpus="line", cls="emu-geometry"),
     # ---- insets ---------------------------------------------------------------------------------------------
     R("TextFrame.margin_left", "textbox", TF, emu(*I32, interior=(0, 1, 91440, 45720, 914400)), "emu", group="tf", corpus="textframe", cls="inset"),
